@@ -260,4 +260,122 @@ theorem path_roundtrip (pset : Byte → Bool) (path : Bytes)
     simp [Function.comp, unquote_quote_partial pset x (hesc x hx)]
   rw [e2, join_split]
 
+
+/-! ### the outer cuts: no component leaks into its neighbour -/
+
+/-- the text of a hierarchical URI as `compose` assembles it from already quoted pieces -/
+def assemble (sch auth path q frag : Bytes) : Bytes :=
+  sch ++ [0x3A, 0x2F, 0x2F] ++ auth ++ path ++ (if q.isEmpty then [] else 0x3F :: q) ++ (if frag.isEmpty then [] else 0x23 :: frag)
+
+theorem partitionAt_append (c : Byte) (x r : Bytes) (h : Clean c x) : partitionAt [c] (x ++ c :: r) = (x, r) := by
+  unfold partitionAt; rw [splitOnce1_append c x r h]
+
+theorem partitionAt_clean (c : Byte) (x : Bytes) (h : Clean c x) : partitionAt [c] x = (x, []) := by
+  unfold partitionAt; rw [splitOnce1_clean c x h]
+
+theorem splitOnce3_append (a b c : Byte) (x r : Bytes) (h : Clean a x) :
+    splitOnce [a, b, c] (x ++ a :: b :: c :: r) = some (x, r) := by
+  induction x with
+  | nil => simp [splitOnce, startsWith]
+  | cons y x ih =>
+    have hy : (y == a) = false := by simpa using h.head
+    simp [splitOnce, startsWith, hy, ih h.tail]
+
+/-- **the five outer cuts of `URI.parse` find exactly the pieces `compose` put together**, whenever each piece is free
+    of the delimiters that end it — which `quote` guarantees for every component (`quote_clean`, `delimiters_encoded`):
+    the scheme has no `:` and does not begin with `/`; scheme, authority and path have no `?` and `#`; the query has
+    no `#`; the authority has no `/`; the path is empty or begins with `/`. -/
+theorem uri_cuts (sch auth path q frag : Bytes)
+    (hs1 : Clean 0x3A sch) (hs2 : Clean 0x3F sch) (hs3 : Clean 0x23 sch) (hs4 : startsWith sch [0x2F] = false)
+    (ha1 : Clean 0x2F auth) (ha2 : Clean 0x3F auth) (ha3 : Clean 0x23 auth)
+    (hp1 : Clean 0x3F path) (hp2 : Clean 0x23 path) (hp3 : path = [] ∨ startsWith path [0x2F] = true)
+    (hq : Clean 0x23 q) :
+    let w := assemble sch auth path q frag
+    let f := partitionAt [0x23] w
+    let qq := partitionAt [0x3F] f.1
+    let sc := cutScheme qq.1
+    let ap := cutAuthority sc.2.1 sc.2.2
+    f.2 = frag ∧ qq.2 = q ∧ sc.1 = sch ∧ sc.2.1 = true ∧ ap = (auth, path) := by
+  intro w f qq sc ap
+  have hcolon3 : Clean 0x23 [0x3A, 0x2F, 0x2F] := by decide
+  have hq3 : Clean 0x3F [0x3A, 0x2F, 0x2F] := by decide
+  -- everything before the fragment is free of '#'
+  have hpre_hash : Clean 0x23 (sch ++ [0x3A, 0x2F, 0x2F] ++ auth ++ path ++ (if q.isEmpty then [] else 0x3F :: q)) := by
+    refine Clean.append (Clean.append (Clean.append (Clean.append hs3 hcolon3) ha3) hp2) ?_
+    split
+    · exact Clean.nil _
+    · intro b hb; rcases List.mem_cons.mp hb with h | h
+      · subst h; decide
+      · exact hq b h
+  have hf : f = (sch ++ [0x3A, 0x2F, 0x2F] ++ auth ++ path ++ (if q.isEmpty then [] else 0x3F :: q), frag) := by
+    show partitionAt [0x23] (assemble sch auth path q frag) = _
+    unfold assemble
+    by_cases hfe : frag.isEmpty = true
+    · have : frag = [] := by simpa using hfe
+      subst this
+      simp only [List.isEmpty_nil, if_true, List.append_nil]
+      exact partitionAt_clean _ _ hpre_hash
+    · simp only [hfe, Bool.false_eq_true, if_false]
+      exact partitionAt_append _ _ _ hpre_hash
+  have hpre_q : Clean 0x3F (sch ++ [0x3A, 0x2F, 0x2F] ++ auth ++ path) :=
+    Clean.append (Clean.append (Clean.append hs2 hq3) ha2) hp1
+  have hqq : qq = (sch ++ [0x3A, 0x2F, 0x2F] ++ auth ++ path, q) := by
+    show partitionAt [0x3F] f.1 = _
+    rw [hf]
+    by_cases hqe : q.isEmpty = true
+    · have : q = [] := by simpa using hqe
+      subst this
+      simp only [List.isEmpty_nil, if_true, List.append_nil]
+      exact partitionAt_clean _ _ hpre_q
+    · simp only [hqe, Bool.false_eq_true, if_false]
+      exact partitionAt_append _ _ _ hpre_q
+  have hsc : sc = (sch, true, auth ++ path) := by
+    show cutScheme qq.1 = _
+    rw [hqq]
+    unfold cutScheme
+    have hst : startsWith (sch ++ [0x3A, 0x2F, 0x2F] ++ auth ++ path) [0x2F] = false := by
+      cases sch with
+      | nil => simp [startsWith]
+      | cons a t => simpa [startsWith] using hs4
+    have e : sch ++ [0x3A, 0x2F, 0x2F] ++ auth ++ path = sch ++ 0x3A :: 0x2F :: 0x2F :: (auth ++ path) := by simp
+    simp only [hst, Bool.false_eq_true, if_false]
+    rw [e, splitOnce3_append 0x3A 0x2F 0x2F sch _ hs1]
+    simp
+  have hap : ap = (auth, path) := by
+    show cutAuthority sc.2.1 sc.2.2 = _
+    rw [hsc]
+    unfold cutAuthority
+    simp only [if_true]
+    rcases hp3 with rfl | hp3
+    · simp only [List.append_nil]
+      rw [splitOnce1_clean _ _ ha1]
+    · obtain ⟨pt, rfl⟩ : ∃ pt, path = 0x2F :: pt := by
+        cases path with
+        | nil => simp [startsWith] at hp3
+        | cons a pt => simp [startsWith] at hp3; exact ⟨pt, by rw [hp3]⟩
+      rw [splitOnce1_append _ _ _ ha1]
+  exact ⟨by rw [hf], by rw [hqq], by rw [hsc], by rw [hsc], hap⟩
+
+/-- `compose` of a URI with scheme and authority is that assembly of its quoted pieces -/
+theorem compose_assemble (P : Sets) (u : Uri) (a : Bytes) (hs : u.scheme ≠ []) (ha : composeAuthority P u = .ok a) (hane : a ≠ []) :
+    compose P u = .ok (assemble (quote P.scheme u.scheme) a
+      (joinWith [0x2F] ((splitOn1 0x2F u.path).map (quote P.path))) u.query (quote P.fragment u.fragment)) := by
+  unfold compose
+  simp only [ha, bind, Except.bind, pure, Except.pure]
+  have h1 : u.scheme.isEmpty = false := by simpa using hs
+  have h2 : a.isEmpty = false := by simpa using hane
+  have h3 : (quote P.fragment u.fragment).isEmpty = u.fragment.isEmpty := by
+    cases hf : u.fragment with
+    | nil => simp [quote]
+    | cons b t =>
+      simp only [quote, List.flatMap_cons, List.isEmpty_cons]
+      have : quoteByte P.fragment b ≠ [] := by unfold quoteByte; split <;> simp
+      cases hq : quoteByte P.fragment b with
+      | nil => exact absurd hq this
+      | cons _ _ => simp
+  unfold composeRelative assemble
+  simp only [h1, h2, Bool.false_eq_true, if_false, Bool.false_and, h3]
+  congr 1
+  simp [List.append_assoc]
+
 end Httoop.Uri
